@@ -4,6 +4,7 @@
 -/
 import Pulsar.Syntax
 import Pulsar.Typing
+import Pulsar.ReflectSyntax
 import Pulsar.Timepb
 import Pulsar.Anyutil
 import Std.Data.HashMap
@@ -76,6 +77,14 @@ def step (st : St) (line : String) : St × String :=
          | .ok v => "ok " ++ printVal (repNorm S (v.depth + 1) i v)
          | .err _ => "err" | .panic => "panic"))
      | _, _, _ => (st, "bad-op"))
+  | "refl" :: sid :: i :: rest =>           -- reflection history on the IMPL machine (REFLECT_PROTOCOL.md)
+    (match st.get? sid, i.toNat? with
+     | some S, some i => (st, cmdRefl S i rest)
+     | _, _ => (st, "bad-op"))
+  | "rrefl" :: sid :: i :: rest =>          -- the same history on the SPEC machine
+    (match st.get? sid, i.toNat? with
+     | some S, some i => (st, cmdRrefl S i rest)
+     | _, _ => (st, "bad-op"))
   | ["anyunpack", urlhex, tans, fans, dec] =>
     -- urlhex: x<hex of url>; tans/fans: m:<hex name> | n | nf | oe ; dec: ok | err | panic
     let str (h : String) : Option String := (bytesOfHex (h.drop 1).toString).map (fun b => String.ofList (b.map (fun c => Char.ofNat c.toNat)))
